@@ -32,6 +32,7 @@ for _name, _cands in (("cells", ("harness.c06", "harness.cells_common")), ("lega
 LISTED_KINDS = {
     "devs": {"Past", "Unit"},
     "cont": {"OutOfBounds"},
+    "cells": {"Full", "NoCell", "Fixed"},
 }
 
 
